@@ -88,6 +88,44 @@ impl s2n_quic::provider::random::Generator for Rand {
     }
 }
 
+/// deterministic connection-id format (the default one draws from the OS)
+pub struct CidFormat {
+    rng: Rand,
+    len: usize,
+    lifetime: Option<Duration>,
+    rotate: bool,
+}
+
+impl CidFormat {
+    pub fn new(seed: u64, len: usize, lifetime: Option<Duration>, rotate: bool) -> Self {
+        CidFormat { rng: Rand::new(seed ^ 0xc1d), len, lifetime, rotate }
+    }
+}
+
+impl s2n_quic::provider::connection_id::Generator for CidFormat {
+    fn generate(&mut self, _info: &s2n_quic::provider::connection_id::ConnectionInfo) -> s2n_quic::provider::connection_id::LocalId {
+        let mut b = [0u8; 20];
+        self.rng.fill(&mut b[..self.len]);
+        s2n_quic::provider::connection_id::LocalId::try_from_bytes(&b[..self.len]).expect("valid connection id length")
+    }
+    fn lifetime(&self) -> Option<Duration> {
+        self.lifetime
+    }
+    fn rotate_handshake_connection_id(&self) -> bool {
+        self.rotate
+    }
+}
+
+impl s2n_quic::provider::connection_id::Validator for CidFormat {
+    fn validate(&self, _info: &s2n_quic::provider::connection_id::ConnectionInfo, buffer: &[u8]) -> Option<usize> {
+        if buffer.len() >= self.len {
+            Some(self.len)
+        } else {
+            None
+        }
+    }
+}
+
 pub fn limits_of(l: &LimitsCfg) -> Limits {
     let mut v = Limits::new();
     macro_rules! set {
@@ -140,11 +178,13 @@ fn start_server(handle: &Handle, cfg: &EndpointCfg, seed: u64, rec: Recorder) ->
     let b = Server::builder()
         .with_io(io_of(handle, cfg))
         .unwrap()
-        .with_tls((certificates::CERT_PEM, certificates::KEY_PEM))
+        .with_tls((certificates::CERT_PKCS1_PEM, certificates::KEY_PKCS1_PEM))
         .unwrap()
         .with_event(rec.clone())
         .unwrap()
         .with_random(Rand::new(seed))
+        .unwrap()
+        .with_connection_id(CidFormat::new(seed, 16, None, true))
         .unwrap()
         .with_packet_interceptor(rec)
         .unwrap()
@@ -160,11 +200,13 @@ fn start_client(handle: &Handle, cfg: &EndpointCfg, seed: u64, rec: Recorder) ->
     let b = Client::builder()
         .with_io(io_of(handle, cfg))
         .unwrap()
-        .with_tls(certificates::CERT_PEM)
+        .with_tls(certificates::CERT_PKCS1_PEM)
         .unwrap()
         .with_event(rec.clone())
         .unwrap()
         .with_random(Rand::new(seed))
+        .unwrap()
+        .with_connection_id(CidFormat::new(seed, 16, None, true))
         .unwrap()
         .with_packet_interceptor(rec)
         .unwrap()
